@@ -3429,3 +3429,80 @@ let id_codec =
     match c with
     | [] -> None
     | x :: d -> if N.eqb x a then Some d else None) }
+
+type rform =
+| F7
+| F9
+| F14
+
+(** val ref_fields : z list -> (((rform * z) * z) * z list) option **)
+
+let ref_fields = function
+| [] -> None
+| lo :: l ->
+  (match l with
+   | [] -> None
+   | hi :: r ->
+     if Z.eqb (Z.coq_land lo (Zpos (XO (XO (XO (XO (XO (XO (XO XH))))))))) Z0
+     then Some (((F7, lo), (Z.add hi (Zpos (XI XH)))), r)
+     else if Z.eqb
+               (Z.coq_land hi (Zpos (XO (XO (XO (XO (XO (XO (XO XH))))))))) Z0
+          then Some (((F9,
+                 (Z.add (Zpos (XO (XO (XO (XO (XO (XO (XO XH))))))))
+                   (Z.coq_lor
+                     (Z.coq_land (Z.shiftl hi (Zpos (XO XH))) (Zpos (XO (XO
+                       (XO (XO (XO (XO (XO (XI XH))))))))))
+                     (Z.coq_land lo (Zpos (XI (XI (XI (XI (XI (XI XH))))))))))),
+                 (Z.add (Z.coq_land hi (Zpos (XI (XI (XI (XI XH)))))) (Zpos
+                   (XI XH)))), r)
+          else (match r with
+                | [] -> None
+                | l3 :: r' ->
+                  Some (((F14,
+                    (Z.add (Zpos (XO (XO (XO (XO (XO (XO (XO XH))))))))
+                      (Z.coq_lor
+                        (Z.shiftl
+                          (Z.coq_land hi (Zpos (XI (XI (XI (XI (XI (XI
+                            XH)))))))) (Zpos (XI (XI XH))))
+                        (Z.coq_land lo (Zpos (XI (XI (XI (XI (XI (XI
+                          XH))))))))))), (Z.add l3 (Zpos (XI XH)))), r')))
+
+(** val form_of : z -> z -> rform option **)
+
+let form_of eo len =
+  if (||) (Z.ltb len (Zpos (XI XH))) (Z.ltb eo Z0)
+  then None
+  else if Z.leb eo (Zpos (XI (XI (XI (XI (XI (XI XH)))))))
+       then Some F7
+       else if (&&)
+                 (Z.ltb (Z.sub len (Zpos (XI XH))) (Zpos (XO (XO (XO (XO (XO
+                   XH)))))))
+                 (Z.ltb
+                   (Z.sub eo (Zpos (XO (XO (XO (XO (XO (XO (XO XH)))))))))
+                   (Zpos (XO (XO (XO (XO (XO (XO (XO (XO (XO XH)))))))))))
+            then Some F9
+            else if (&&) (Z.gtb len (Zpos (XI XH)))
+                      (Z.ltb
+                        (Z.sub eo (Zpos (XO (XO (XO (XO (XO (XO (XO
+                          XH))))))))) (Zpos (XO (XO (XO (XO (XO (XO (XO (XO
+                        (XO (XO (XO (XO (XO (XO XH))))))))))))))))
+                 then Some F14
+                 else None
+
+(** val lzss_unpack :
+    table0 -> n list -> (n list list * n list list) option **)
+
+let lzss_unpack t0 c =
+  match decompress_string (map Z.of_N c) (Z.of_N (nlen c))
+          (Z.of_N (nlen t0.t_data)) with
+  | SOk out -> unpack_table t0 (map Z.to_N out)
+  | _ -> None
+
+(** val refs_of : token list -> ((z * z) * z) list **)
+
+let rec refs_of = function
+| [] -> []
+| t0 :: r ->
+  (match t0 with
+   | TLit _ -> refs_of r
+   | TRef (eo, len, bs) -> (((Z.of_nat (length bs)), eo), len) :: (refs_of r))
